@@ -176,13 +176,15 @@ def rowMetadata (r : Row) (detailCols lossDetailCols : List String) : Metadata :
 
 /-- the key list of `df.groupby([...])` in reader `fn`, from the GENERATED table, with the local
 variables expanded -/
+def expandKey (detailCols lossDetailCols : List String) (k : String) : List String :=
+  if k == "$detail_cols" then detailCols
+  else if k == "$loss_detail_cols" then lossDetailCols
+  else [k]
+
 def groupCols (fn : String) (detailCols lossDetailCols : List String) : List String :=
   match Generated.Frame.groupByKeys.find? (·.1 == fn) with
   | none => []
-  | some (_, ks) => ks.flatMap fun k =>
-      if k == "$detail_cols" then detailCols
-      else if k == "$loss_detail_cols" then lossDetailCols
-      else [k]
+  | some (_, ks) => ks.flatMap (expandKey detailCols lossDetailCols)
 
 /-- the value a row has in a key column. A metadata column missing from the table was filled in by
 `df.assign(**{column: [getattr(cell, column) …]})` from the row's metadata -/
